@@ -30,7 +30,8 @@ func (c03) Meta() fw.Meta {
 			"batch: target ring == ring before + exactly the points younger than the archive's retention, last (timestamp, supply index) wins per slot; twin files end bit-identical. " +
 			"non-trivial = case saw an accept and a reject at a boundary and a batch that dropped at least one and stored at least one point; distinct by (layout, clock, ops)." +
 			" Odd cases write NaN payloads and infinities as values (a supplied point is stored whatever it carries)." +
-			" Also: an identical single update resent after the clock moved past the finest retention (it belongs to the coarser archive then); every 5th case replaces the file by one of another layout (rename) and requires a new handle to accept and route by the new layout.",
+			" Also: an identical single update resent after the clock moved past the finest retention (it belongs to the coarser archive then); every 5th case replaces the file by one of another layout (rename) and requires a new handle to accept and route by the new layout." +
+			" Every 5th case adds batch points ahead of the clock (stored: they are younger than every retention).",
 		Assumptions: []string{
 			"clock domain: maxRetention + 2*maxStep <= now and now + 2*maxStep < 2^32",
 			"'supplied last' = greatest (timestamp, supply index) among the points of one slot (batches are time-ordered first; DESIGN.md section 1.5)",
